@@ -40,10 +40,10 @@ ASSUME = ['modeling.rst does not document the order of variables()/constraints()
           'constant-only inequality) are not C13 matters: only "edited op behaves like the fresh op" is demanded',
           'whether op.status is reset by an edit is not documented and not checked',
           'optimal values agree within 1e-6 (relative to 1+|value|)']
-BOUNDS = {'quick': 'depth 4 (events after the initial op) from each of the 3 initial ops, all 19 events at every state '
+BOUNDS = {'quick': 'depth 4 (events after the initial op) from each of the 4 initial ops (one of them built from a bare equality constraint), all 19 events at every state '
                    '(60 subtrees, ~1.2e5 histories, ~4.6e4 states); right-hand-side palette VERIF_SEED mod 4; '
                    'solve format dense for even seeds, sparse for odd seeds',
-          'thorough': 'depth 5 from each of the 3 initial ops, all 19 events at every state (~8.7e5 histories, ~3.1e5 states); '
+          'thorough': 'depth 5 from each of the 4 initial ops (one of them built from a bare equality constraint), all 19 events at every state (~8.7e5 histories, ~3.1e5 states); '
                       'palette and format as in quick'}
 
 CNAMES = ('c1', 'c2', 'c3', 'c4', 'c5', 'c6', 'c7')
@@ -57,7 +57,8 @@ RHS = [{'c1': 1.0, 'c2': 2.0, 'c4': 1.0, 'c5': 3.0, 'c7': 4.0},
        {'c1': 2.0, 'c2': 3.0, 'c4': -1.0, 'c5': 2.0, 'c7': 3.0},
        {'c1': -1.0, 'c2': 1.0, 'c4': 2.0, 'c5': 4.0, 'c7': 0.0},
        {'c1': 0.5, 'c2': 2.5, 'c4': 0.0, 'c5': 1.5, 'c7': -2.0}]     # palette 3: {c3,c4,c7} is infeasible
-INIT = [('o1', ()), ('o1', ('c1',)), ('o2', ('c1', 'c2', 'c4'))]
+# an initial op with exactly one constraint receives it bare (op(f, c), not op(f, [c])): the documented single-constraint form
+INIT = [('o1', ()), ('o1', ('c1',)), ('o2', ('c1', 'c2', 'c4')), ('o3', ('c4',))]
 ALPHABET = [('add', c) for c in CNAMES] + [('del', c) for c in CNAMES] + [('obj', o) for o in ONAMES] + [('solve',)]
 TOL = 1e-6
 
@@ -336,7 +337,7 @@ def step(w, e):
         obj, cs = INIT[e[1]]
         w.obj, w.ineqs, w.eqs = obj, [c for c in cs if CTYPE[c] == '<'], [c for c in cs if CTYPE[c] == '=']
         ec = 'constructor'
-        w.p = op(w.O[obj], [w.C[c] for c in cs]) if cs else op(w.O[obj])
+        w.p = (op(w.O[obj], w.C[cs[0]]) if len(cs) == 1 else op(w.O[obj], [w.C[c] for c in cs])) if cs else op(w.O[obj])
         changed = True
     elif kind in ('add', 'del'):
         c = e[1]
